@@ -340,12 +340,21 @@ mod proofs {
     return Program(key, title, src, hs)
 
 
-def sum_custom_program(kind):
-    """Sum/Product over a type whose own Add/Mul is hand-written and deliberately NOT field-wise: the derive must fold with
-    the TYPE's operator (property statement), it must not sum the fields separately."""
-    key = "s%s_aa_sumprod_customop" % ("t" if kind == "tuple" else "n")
-    f0, f1 = acc(kind, 0), acc(kind, 1)
-    mk = (lambda a, b: "T(%s, %s)" % (a, b)) if kind == "tuple" else (lambda a, b: "T { x: %s, y: %s }" % (a, b))
+def sum_custom_program(kind, nfields=2, generic=False):
+    """Sum/Product over a type whose own Add/Mul is hand-written and deliberately NOT the field-wise operator: the derive must
+    fold with the TYPE's operator starting from the field-wise empty sum/product (property statement); it must neither sum the
+    fields separately nor -- for a single-field struct -- unwrap the items and use the field type's Sum/Product.
+    nfields=2: the two fields cross; nfields=1: a different field operator with the operands swapped.
+    generic: `struct G<P>(P ..)` used at `T = G<TagA>`, the hand-written impls are generic too."""
+    fields = "A" * nfields
+    key = "s%s%s_%s_sumprod_customop" % ("t" if kind == "tuple" else "n", "g" if generic else "", fields.lower())
+    ctor = "G" if generic else "T"
+    f0, f1 = acc(kind, 0), acc(kind, nfields - 1)
+
+    def mk(*vals):
+        if kind == "tuple":
+            return "%s(%s)" % (ctor, ", ".join(vals))
+        return "%s { %s }" % (ctor, ", ".join("%s: %s" % (NAMES[i], v) for i, v in enumerate(vals)))
     posts, proofs, hs = [], [], []
     for tr, m, optr, opm in (("Sum", "sum", "Add", "add"), ("Product", "product", "Mul", "mul")):
         e = "<TagA as core::iter::%s>::%s(core::iter::empty::<TagA>())" % (tr, m)
@@ -357,7 +366,7 @@ pub fn post_%(m)s(items: &[T; 3], n: usize, r: &T) -> bool {
     if n > 1 { acc = <T as core::ops::%(optr)s>::%(opm)s(acc, items[1]); }
     if n > 2 { acc = <T as core::ops::%(optr)s>::%(opm)s(acc, items[2]); }
     *r == acc
-}''' % dict(m=m, tr=tr, optr=optr, opm=opm, ident=mk(e, e)))
+}''' % dict(m=m, tr=tr, optr=optr, opm=opm, ident=mk(*([e] * nfields))))
         proofs.append('''    #[kani::proof]
     fn ob_%(m)s() {
         let items: [T; 3] = kani::any();
@@ -370,24 +379,40 @@ pub fn post_%(m)s(items: &[T; 3], n: usize, r: &T) -> bool {
     }''' % dict(m=m, tr=tr))
         hs.append(Harness("ob_" + m, "forall items: [T;3], n <= 3. %s(items[..n]) == fold(items[..n], field-wise empty %s, T's hand-written %s::%s)" % (m, m, optr, opm),
                           bounded="iterator length <= 3", fn="derive_more-generated <T as %s>::%s" % (tr, m), cover_min=2))
-    title = "#[derive(Sum, Product)] struct T%s with hand-written, non-field-wise Add and Mul" % (
-        body_decl(kind, "AA", pub="") + (";" if kind == "tuple" else ""))
+    fty = "P%s" if generic else "Tag%s"
+    gparams = "<PA>" if generic else ""
+    galias = "pub type T = G<TagA>;" if generic else ""
+    title = "#[derive(Sum, Product)] struct %s%s%s%s with hand-written Add and Mul that are not the field-wise operators" % (
+        ctor, gparams, body_decl(kind, fields, pub="", ty=fty) + (";" if kind == "tuple" else ""), " used at T = G<TagA>" if generic else "")
+    if nfields == 2:
+        addv = mk("self.%s + r.%s" % (f0, f1), "r.%s - self.%s" % (f0, f1))
+        mulv = mk("self.%s * r.%s" % (f1, f0), "self.%s / r.%s" % (f0, f1))
+        add_b = "core::ops::Add<Output = PA> + core::ops::Sub<Output = PA>"
+        mul_b = "core::ops::Mul<Output = PA> + core::ops::Div<Output = PA>"
+        how = "the two fields cross"
+    else:
+        addv = mk("r.%s - self.%s" % (f0, f0))
+        mulv = mk("r.%s / self.%s" % (f0, f0))
+        add_b = "core::ops::Sub<Output = PA>"
+        mul_b = "core::ops::Div<Output = PA>"
+        how = "another operator of the field, operands swapped"
     src = '''
 use crate::common::*;
 
 #[derive(Clone, Copy, PartialEq, Debug)]
 #[cfg_attr(kani, derive(kani::Arbitrary))]
 #[derive(Sum, Product)]
-pub struct T%(decl)s%(semi)s
+pub struct %(ctor)s%(gparams)s%(decl)s%(semi)s
+%(galias)s
 
-/// hand-written and deliberately not field-wise (the two fields cross) and not commutative
-impl core::ops::Add for T {
-    type Output = T;
-    fn add(self, r: T) -> T { %(addv)s }
+/// hand-written and deliberately not the field-wise operator (%(how)s) and not commutative
+impl%(add_g)s core::ops::Add for %(ctor)s%(gparams)s {
+    type Output = Self;
+    fn add(self, r: Self) -> Self { %(addv)s }
 }
-impl core::ops::Mul for T {
-    type Output = T;
-    fn mul(self, r: T) -> T { %(mulv)s }
+impl%(mul_g)s core::ops::Mul for %(ctor)s%(gparams)s {
+    type Output = Self;
+    fn mul(self, r: Self) -> Self { %(mulv)s }
 }
 
 %(posts)s
@@ -398,9 +423,8 @@ mod proofs {
 %(proofs)s
     // PLAYBACK-INSERTION-POINT
 }
-''' % dict(decl=body_decl(kind, "AA"), semi=";" if kind == "tuple" else "",
-           addv=mk("self.%s + r.%s" % (f0, f1), "r.%s - self.%s" % (f0, f1)),
-           mulv=mk("self.%s * r.%s" % (f1, f0), "self.%s / r.%s" % (f0, f1)),
+''' % dict(ctor=ctor, gparams=gparams, galias=galias, decl=body_decl(kind, fields, ty=fty), semi=";" if kind == "tuple" else "",
+           how=how, addv=addv, mulv=mulv, add_g="<PA: %s>" % add_b if generic else "", mul_g="<PA: %s>" % mul_b if generic else "",
            posts="\n".join(posts), proofs="\n".join(proofs))
     return Program(key, title, src, hs)
 
@@ -638,9 +662,14 @@ def family(tier, seed):
     for kind, f in generic_shapes:
         for g in STRUCT_GROUPS:
             progs.append(struct_program(kind, list(f), g, generic=True))
-    progs.append(sum_custom_program("tuple"))
-    if tier != "quick":
-        progs.append(sum_custom_program("named"))
+    # Sum/Product must fold with the struct's OWN Add/Mul -- also for a single-field struct (a "newtype shortcut" that unwraps the
+    # items and uses the field's Sum/Product is only visible when the struct's operator is not the field's)
+    if tier == "quick":
+        custom = [("tuple", 1, False), ("named", 1, False), ("tuple", 1, True), ("tuple", 2, False)]
+    else:
+        custom = [(k, n, g) for k in ("tuple", "named") for n in (1, 2) for g in (False, True)]
+    for k, n, g in custom:
+        progs.append(sum_custom_program(k, n, g))
     for e in enums:
         for g in ENUM_GROUPS:
             # impl/doc/mul.md: "Deriving `Mul` for enums is not (yet) supported, except when you use `#[mul(forward)]`", but
